@@ -126,10 +126,11 @@ class DirectedWeightedGraph : private LabeledDirectedGraph<EdgeWeight> {
     }
     /// @copydoc LabeledDirectedGraph::addReciprocalEdge
     void addReciprocalEdge(
-        VertexIndex source, VertexIndex destination, bool force = false
+        VertexIndex source, VertexIndex destination, EdgeWeight weight,
+        bool force = false
     ) {
-        addEdge(source, destination, force);
-        addEdge(destination, source, force);
+        addEdge(source, destination, weight, force);
+        addEdge(destination, source, weight, force);
     }
 
     /// @copydoc LabeledDirectedGraph::removeEdge
